@@ -42,10 +42,18 @@ THEOREMS = [
         "tlr_uuid_first_iff_same_uuid", "tlr_correct_pairs_maximum", "tp_le_num_gt", "metrics_def",
         "metrics_in_unit", "metrics_in_unit_results", "metrics_all_one", "metrics_all_one_results",
         "summarize_def", "summarize_in_unit", "summarize_all_one",
+        # decision tables of the pairing kernels extracted from the real code (harness/dt_c11.py), regenerated on every run
+        "pair_table_check", "pair_code_table_eq_model", "pair_code_table_eq_skel", "pair_code_table_eq_model_on_index",
+        "table_generic_1x1", "table_tlr_1x1",
     ]
-]
+] + ["PEval.ClassificationDT.skel_eq_model_on_index"]
 TRUSTED = [
     "DynamicObject2D has no __eq__/__hash__: `in` and list.remove work by identity; the model uses the harness id",
+    "harness/dt_c11.py + harness/dtable.py + harness/dt_multi.py (decision-table translator): stub objects (a subclass of the real "
+    "DynamicObject2D exposing only uuid / frame_id / semantic_label / roi=None, identity semantics for `in` / `remove`), Boolean "
+    "equality atoms treated as independent (no transitivity, no uniqueness of uuids: an over-approximation), at most two estimates "
+    "and two ground truths, non-null uuids, the encoding of a result list as a number; the skeleton is tied to the model by "
+    "exhaustive kernel evaluation on index objects (the model's loops with the tests as parameters), not by a proof over all objects",
     "divide_objects / divide_objects_to_num (objects_filter.py) are used by the harness to build the per-label buckets "
     "exactly as PerceptionFrameResult.evaluate_frame / get_scene_result do; the Lean model takes the buckets as inputs, "
     "the ORACLE recomputes them from the result list (est label, else ground-truth label) and the ground truths",
@@ -302,8 +310,94 @@ def corpus():
     return cs
 
 
+def _realise(eq, n, m, pool, fixed=None):
+    """values for est 0..n-1 and gt 0..m-1 from `pool` with est_i == gt_j <=> eq[(i, j)] for the atoms given; `fixed[i]` =
+    True / False: est i must / must not take pool[-1]"""
+    import itertools
+
+    for vals in itertools.product(pool, repeat=n + m):
+        E, G = vals[:n], vals[n:]
+        if all((E[i] == G[j]) == b for (i, j), b in eq.items() if i < n and j < m) and \
+                all((E[i] == pool[-1]) == b for i, b in (fixed or {}).items() if i < n):
+            return list(E), list(G)
+    return None
+
+
+def table_witness_cases():
+    """concrete pairing cases realising the valuations on which the code's decision table (harness/dt_c11.py) and the
+    model's skeleton differ; empty on an unchanged source. Never raises."""
+    try:
+        import re
+
+        from .. import dt_c11
+
+        shape_of = {nm: (f, n, m) for nm, f, n, m in dt_c11.SHAPES}
+        cs = []
+        for name, asg, rc, rm in dt_c11.table_disagreements(limit=60):
+            f, n, m = shape_of[name]
+            eq = {"uuid": {}, "frame": {}, "lab": {}}
+            tl = {}
+            for a, o in asg.items():
+                mm = re.fullmatch(r"(uuid|frame|lab)\((\d),(\d)\)", a)
+                if mm:
+                    eq[mm.group(1)][(int(mm.group(2)), int(mm.group(3)))] = bool(o)
+                mm = re.fullmatch(r"tl\((\d)\)", a)
+                if mm:
+                    tl[int(mm.group(1))] = bool(o)
+            # atoms the path did not read: same camera, different uuids / labels unless stated
+            for i in range(n):
+                for j in range(m):
+                    eq["frame"].setdefault((i, j), True)
+            fam = "aw" if f == "G" else "tl"
+            labs = (AW if fam == "aw" else TL)[:3]
+            U = _realise(eq["uuid"], n, m, ["a", "b", "c", "d"])
+            F = _realise(eq["frame"], n, m, [CAMS[0], CAMS[1], CAMS[2]], fixed=tl)
+            Lb = _realise(eq["lab"], n, m, labs)
+            if U is None or F is None or Lb is None:
+                continue  # jointly unrealisable (the table treats the equality atoms as independent)
+            ests = [[Lb[0][i], F[0][i], U[0][i]] for i in range(n)]
+            gts = [[Lb[1][j], F[1][j], U[1][j]] for j in range(m)]
+
+            def uniq(side):
+                keys = [(o[1], o[2]) for o in side]
+                return len(set(keys)) == len(keys)
+
+            c = _case(fam, f == "T1", ests, gts, targets=labs, domain=uniq(ests) and uniq(gts))
+            c["table_witness"] = {"shape": name, "valuation": {a: bool(o) for a, o in asg.items()}, "code_table": rc, "model": rm}
+            cs.append(c)
+        cs.sort(key=lambda c: not c["domain"])
+        return cs
+    except Exception:  # noqa: BLE001 - the witness step must never break the check
+        return []
+
+
+def extra_evidence():
+    from .. import dt_c11
+
+    return {"tables": dt_c11.evidence()}
+
+
+_TB = {}
+
+
+def _table_branches():
+    if _TB.get("done"):
+        return []
+    _TB["done"] = True
+    try:
+        from .. import dt_c11
+
+        ev = dt_c11.evidence()
+        b = [f"table:untranslatable:{k}" for k in ev["decision_tables_untranslatable"]]
+        if b:
+            b.append("table:untranslatable")
+        return b + [f"table:{k}:paths={v['paths']}" for k, v in ev["decision_tables"].items()]
+    except Exception:  # noqa: BLE001
+        return ["table:untranslatable"]
+
+
 def generate(rng, tier):
-    cases = []
+    cases = table_witness_cases()
     if tier == "quick":
         cases += _sweep(rng, 3, TL[:3], "tl", (False, True), 2)
         cases += _sweep(rng, 3, AW[:3], "aw", (False,), 1)
@@ -824,6 +918,10 @@ def _bucket_branches(case, E, G, out):
 
 
 def branches(case, out):
+    return _branches0(case, out) + _table_branches() + (["table:witness"] if case.get("table_witness") else [])
+
+
+def _branches0(case, out):
     if case.get("kind") == "divide":
         E, G, _ = _div_specs(case)
         br = ["kind:divide", f"divide:size:{len(E)}", f"divide:targets:{len(case['targets'])}"]
@@ -925,7 +1023,7 @@ def shrink(case):
 
 
 def search(rng, st, disagreements):
-    cases = []
+    cases = table_witness_cases()
     for _ in range(6000):
         cases.append(_random_case(rng, 6))
     for _ in range(6000):
